@@ -149,17 +149,78 @@ func oracleC18Prim(c *CaseC18Prim) *Failure {
 	return nil
 }
 
-type CaseC18Msg struct {
-	Type  string `json:"type"`
-	Field string `json:"field"` // path of the prefixed field inside the skeleton: Go field name (top level) or Parent.Field
-	Inner bool   `json:"inner"` // exceed the per-element length prefix of a text list instead of the count
-	N     int    `json:"n"`
+// CaseC18Elem: an object list one of whose elements refuses to encode (as an
+// element holding an over-long field does): the list writer must report it.
+type CaseC18Elem struct {
+	Prefix string `json:"prefix"`
+	LE     bool   `json:"le"`
+	N      int    `json:"n"`
+	FailAt int    `json:"fail_at"`
 }
 
-// c18Build: skeleton of the type with the named field blown up to n elements/bytes.
+func oracleC18Elem(c *CaseC18Elem) *Failure {
+	bl := make([]*Blob, c.N)
+	for i := range bl {
+		bl[i] = &Blob{P: []byte{byte(i)}, Refuse: i == c.FailAt}
+	}
+	var buf bytes.Buffer
+	err, pan, _ := safely(func() error { return ObjLists[c.Prefix].write(&buf, c.LE, bl) })
+	name := "WriteObjectList"
+	if c.LE {
+		name += "LE"
+	}
+	if pan != nil {
+		return failf("C18/"+name+"/panic", "panicked: %v", pan)
+	}
+	if err == nil {
+		return failf("C18/"+name+"/element-error-swallowed", "element %d of %d returned an error from Encode (as an element with an over-long field does) but %s[%s] returned nil after writing %d bytes", c.FailAt, c.N, name, c.Prefix, buf.Len())
+	}
+	return nil
+}
+
+type PathStep struct {
+	Field string `json:"field"`
+	Index int    `json:"index,omitempty"` // element index for object lists
+}
+
+type CaseC18Msg struct {
+	Type  string     `json:"type"`
+	Key   int        `json:"key,omitempty"`  // which registered key the top-level dynamic part uses
+	Path  []PathStep `json:"path,omitempty"` // steps through nested parts to the value that owns Field
+	Field string     `json:"field"`          // the prefixed field that is blown up
+	Inner bool       `json:"inner"`          // exceed the per-element length prefix of a text list instead of the count
+	N     int        `json:"n"`
+}
+
+// c18Build: skeleton of the type with the named (possibly nested) field blown up to n elements/bytes.
 func c18Build(c *CaseC18Msg) (*Value, uint64, bool) {
-	v := Skeleton(c.Type, 0)
-	ts := Types[c.Type]
+	root := Skeleton(c.Type, c.Key)
+	v := root
+	for _, st := range c.Path {
+		ts := Types[v.Type]
+		i := ts.FieldIndex(st.Field)
+		if i < 0 {
+			return nil, 0, false
+		}
+		x := &v.F[i]
+		switch ts.Fields[i].Kind {
+		case "objlist":
+			if st.Index >= len(x.OL) {
+				return nil, 0, false
+			}
+			// object list elements of the skeleton may be shared: copy before changing
+			x.OL[st.Index] = x.OL[st.Index].Clone()
+			v = x.OL[st.Index]
+		case "obj", "objval", "dyn":
+			if x.O == nil {
+				return nil, 0, false
+			}
+			v = x.O
+		default:
+			return nil, 0, false
+		}
+	}
+	ts := Types[v.Type]
 	i := ts.FieldIndex(c.Field)
 	if i < 0 {
 		return nil, 0, false
@@ -204,7 +265,43 @@ func c18Build(c *CaseC18Msg) (*Value, uint64, bool) {
 	default:
 		return nil, 0, false
 	}
-	return v, max, true
+	return root, max, true
+}
+
+type c18Target struct {
+	path  []PathStep
+	field string
+	ptype string
+	inner bool
+}
+
+// c18Targets lists every prefixed field reachable from the skeleton of a type,
+// through nested parts, object-list elements and the dynamic part.
+func c18Targets(v *Value, path []PathStep, out *[]c18Target, depth int) {
+	if depth > 6 {
+		return
+	}
+	ts := Types[v.Type]
+	for i, f := range ts.Fields {
+		here := append([]PathStep{}, path...)
+		switch f.Kind {
+		case "text":
+			*out = append(*out, c18Target{here, f.Go, f.Prefix, false})
+		case "numlist", "fixtextlist":
+			*out = append(*out, c18Target{here, f.Go, f.Count, false})
+		case "textlist":
+			*out = append(*out, c18Target{here, f.Go, f.Count, false}, c18Target{here, f.Go, f.Prefix, true})
+		case "objlist":
+			*out = append(*out, c18Target{here, f.Go, f.Count, false})
+			if len(v.F[i].OL) > 0 {
+				c18Targets(v.F[i].OL[0], append(here, PathStep{Field: f.Go, Index: 0}), out, depth+1)
+			}
+		case "obj", "objval", "dyn":
+			if v.F[i].O != nil {
+				c18Targets(v.F[i].O, append(here, PathStep{Field: f.Go}), out, depth+1)
+			}
+		}
+	}
 }
 
 func oracleC18Msg(c *CaseC18Msg) *Failure {
@@ -213,7 +310,7 @@ func oracleC18Msg(c *CaseC18Msg) *Failure {
 		Col.BrokenHarness("C18 case names a field without a prefix: " + c.Type + "." + c.Field)
 		return nil
 	}
-	sig := "C18/" + c.Type + "." + c.Field
+	sig := "C18/" + c.Type + "." + c18PathString(c)
 	out, _, err, pan := LibEncode(v)
 	if pan != nil {
 		return failf(sig+"/panic", "length %d: Encode panicked: %v", c.N, pan)
@@ -237,10 +334,19 @@ func oracleC18Msg(c *CaseC18Msg) *Failure {
 	return nil
 }
 
+func c18PathString(c *CaseC18Msg) string {
+	s := ""
+	for _, st := range c.Path {
+		s += st.Field + "."
+	}
+	return s + c.Field
+}
+
 func init() {
 	registerReplay("c17", oracleC17)
 	registerReplay("c18prim", oracleC18Prim)
 	registerReplay("c18msg", oracleC18Msg)
+	registerReplay("c18elem", oracleC18Elem)
 }
 
 func TestC18(t *testing.T) {
@@ -273,6 +379,17 @@ func TestC18(t *testing.T) {
 		}
 		Col.MarkExhaustive("6 prefixed writers x {uint8,uint16} x {BE,LE} x lengths {max-1,max,max+1,max+2,max+77,2max+2,3max+3}")
 	})
+	t.Run("element-error-propagates", func(t *testing.T) {
+		for _, pfx := range PrefixTypes {
+			for _, le := range []bool{false, true} {
+				for _, at := range []int{0, 1, 3} {
+					c := &CaseC18Elem{Prefix: pfx, LE: le, N: 4, FailAt: at}
+					Col.Case(Hash64(JSONOf(c)), true, "objlist-element-refuses")
+					Direct(t, "C18", "c18elem", fmt.Sprintf("elem/%s/%v/%d", pfx, le, at), c, oracleC18Elem)
+				}
+			}
+		}
+	})
 	t.Run("primitives-random", func(t *testing.T) {
 		CheckProp(t, "C18", "c18prim", "primitives-random", func(rt *rapid.T) *CaseC18Prim {
 			c := &CaseC18Prim{
@@ -294,57 +411,55 @@ func TestC18(t *testing.T) {
 		}, oracleC18Prim)
 	})
 	t.Run("messages", func(t *testing.T) {
-		nf := 0
 		for _, tn := range MyTypes() {
 			ts := Types[tn]
-			for _, f := range ts.Fields {
-				var pfx []struct {
-					ptype string
-					inner bool
-				}
-				switch f.Kind {
-				case "text":
-					pfx = append(pfx, struct {
-						ptype string
-						inner bool
-					}{f.Prefix, false})
-				case "numlist", "fixtextlist", "objlist":
-					pfx = append(pfx, struct {
-						ptype string
-						inner bool
-					}{f.Count, false})
-				case "textlist":
-					pfx = append(pfx, struct {
-						ptype string
-						inner bool
-					}{f.Count, false}, struct {
-						ptype string
-						inner bool
-					}{f.Prefix, true})
-				}
-				for _, p := range pfx {
-					if NSize(p.ptype) > 2 {
+			nkeys := 1
+			if di := ts.DynIndex(); di >= 0 {
+				nkeys = len(TableOf(ts, &ts.Fields[di]).Order)
+			}
+			seen := map[string]bool{}
+			for k := 0; k < nkeys; k++ {
+				var targets []c18Target
+				c18Targets(Skeleton(tn, k), nil, &targets, 0)
+				for _, tg := range targets {
+					// the same nested field is reached under several keys that share a body type: once is enough
+					id := fmt.Sprint(Skeleton(tn, k).F[max(0, ts.DynIndex())].O != nil && ts.DynIndex() >= 0, tg.path, tg.field, tg.inner)
+					if ts.DynIndex() >= 0 && Skeleton(tn, k).F[ts.DynIndex()].O != nil {
+						id = Skeleton(tn, k).F[ts.DynIndex()].O.Type + id
+					}
+					if seen[id] {
+						continue
+					}
+					seen[id] = true
+					if NSize(tg.ptype) > 2 {
 						Col.Class("uint32-prefixed field (not driven beyond its maximum: would need 4 GiB)", 1)
 						continue
 					}
-					max := int(NMask(p.ptype))
-					for _, n := range []int{max, max + 1, 2*max + 2} {
-						c := &CaseC18Msg{Type: tn, Field: f.Go, Inner: p.inner, N: n}
+					max := int(NMask(tg.ptype))
+					ns := []int{max, max + 1}
+					if len(tg.path) == 0 {
+						ns = append(ns, 2*max+2)
+					}
+					for _, n := range ns {
+						c := &CaseC18Msg{Type: tn, Key: k, Path: tg.path, Field: tg.field, Inner: tg.inner, N: n}
 						cls := "at-max"
 						if n > max {
 							cls = "beyond-max"
 						}
-						Col.Case(Hash64(JSONOf(c)), true, "message-field", cls)
-						Col.Program(tn)
-						nf++
-						if Col.WantSample("msg") {
-							Col.Sample("msg", c)
+						nest := "top-level-field"
+						if len(tg.path) > 0 {
+							nest = "nested-field(error must propagate through the enclosing message)"
 						}
-						Direct(t, "C18", "c18msg", fmt.Sprintf("msg/%s.%s/%v/%d", tn, f.Go, p.inner, n), c, oracleC18Msg)
+						Col.Case(Hash64(JSONOf(c)), true, "message-field", cls, nest)
+						Col.Program(tn)
+						if Col.WantSample("msg:" + nest) {
+							Col.Sample("msg:"+nest, c)
+						}
+						Direct(t, "C18", "c18msg", fmt.Sprintf("msg/%s/%d/%s/%v/%d", tn, k, c18PathString(c), tg.inner, n), c, oracleC18Msg)
 					}
 				}
 			}
 		}
-		Col.MarkExhaustive("every 16-bit-prefixed text/list field of every type at max, max+1 and 2max+2")
+		Col.MarkExhaustive("every 16-bit-prefixed text/list field of every type, at top level and nested through parts, object-list elements and every body/extension type, at max and max+1")
 	})
 }
